@@ -599,8 +599,32 @@ fn fam_power_levels(tier: Tier, v: u8, f: &mut dyn FnMut(Case)) {
             }
         }
     }
-    // (b) pairs of slots: {unchanged, legal change, illegal change} each
-    let changes: [(Option<i64>, Option<i64>); 3] = [(Some(40), Some(40)), (Some(40), Some(45)), (Some(40), Some(60))];
+    // (a') the same single-slot variation with the sender at level 40 (users entry), so that the
+    // defaults 50 of ban/kick/redact/state_default lie above the sender (reaches the zone where an
+    // absent field is compared through its default)
+    for slot in slots() {
+        if matches!(slot, Slot::UserSelf | Slot::Scalar(0)) {
+            continue;
+        }
+        for old in [None, Some(39), Some(40), Some(41), Some(50)] {
+            for new in [None, Some(39), Some(40), Some(41), Some(50)] {
+                let b = Pl::default().user(CREATOR, Some(json!(100))).event("m.room.power_levels", Some(json!(40))).user(SENDER, Some(json!(40)));
+                let old_pl = set_slot(b.clone(), slot, old.map(|n| json!(n)));
+                let new_pl = set_slot(b, slot, new.map(|n| json!(n)));
+                let room = mk_room(&old_pl);
+                finish(v, "power-levels", pl_event(&new_pl), &room, f);
+            }
+        }
+    }
+    // (b) pairs of slots: {unchanged, legal change, illegal change, removal, addition} each
+    let changes: [(Option<i64>, Option<i64>); 6] = [
+        (Some(40), Some(40)),
+        (Some(40), Some(45)),
+        (Some(40), Some(60)),
+        (Some(40), None),
+        (None, Some(45)),
+        (Some(60), Some(40)),
+    ];
     let all = slots();
     for (i, a) in all.iter().enumerate() {
         for b in all.iter().skip(i + 1) {
